@@ -29,11 +29,20 @@ def build():
     P(TBG_C, 'TBIndex::getSquare')
     P(TBG_C, 'TBIndex::setSquare')
     P(TBG_C, 'TBIndex::staticInitialize', as_static=True)
+    # canonize / sortPieces take the piece types as std::vector<int>: translated as {data, size} (vector indexing only)
+    U.raw('struct VecInt { int* data; int size; };\n')
+    U.tr.typemap['std::vector<int>'] = 'struct VecInt'
+    common.bitboard_consts(U)
+    U.tr.variadic_or.add(('BitBoard', 'sqMask'))
+    U.pull('lib/texellib/bitBoard.hpp', 'BitBoard::sqMask', nparams=1, as_static=True)
+    P(TBG_C, 'TBIndex::sortPieces')
+    P(TBG_C, 'TBIndex::canonize')
     return U
 
 
 SPEC = r'''
 int ghost_j;    /* arbitrary piece number */
+int ghost_cnt0;
 int ghost_g;    /* arbitrary square */
 #define SQ_MX(s) ((s) ^ 7)
 #define SQ_MY(s) ((s) ^ 0x38)
@@ -58,6 +67,16 @@ static _Bool tbl_ok_at(int g) {
     if (g < 0 || g > 63) return 1;
     int sym = TBIndex_symType[g], k = TBIndex_kingMap[g];
     return sym >= 0 && sym <= 7 && k >= 0 && k <= 9 && TBIndex_kingMapInverse[k] == spec_sym(sym, g) && IN_TRIANGLE(spec_sym(sym, g)); }
+/* piece types: index 0 is the white king, index nWhite the black king, no other piece has a king type; equal pieces are adjacent */
+#define TYPES_SHAPE(ix, t) (__CPROVER_is_fresh(t, sizeof(*t)) && (t)->size == (ix)->p && __CPROVER_is_fresh((t)->data, 5 * sizeof(int)))
+static _Bool types_ok(const struct TBIndex* ix, const struct VecInt* t) {
+    for (int i = 1; i < 5; i++) if (i < ix->p && i != ix->nWhite && (t->data[i] == t->data[0] || t->data[i] == t->data[ix->nWhite])) return 0;
+    return t->data[0] != t->data[ix->nWhite]; }
+int ghost_t;    /* arbitrary piece type */
+/* number of pieces of type ghost_t standing on square ghost_g (pieces 1..p-1) */
+static int spec_count_w(const struct TBIndex* ix, U32 w, const struct VecInt* t) { int n = 0;
+    for (int i = 1; i < 5; i++) if (i < ix->p && t->data[i] == ghost_t && PSQ_W(ix, w, i) == ghost_g) n++;
+    return n; }
 #define GJ_OK(ix) (1 <= ghost_j && ghost_j < (ix)->p)
 '''
 _S = '__CPROVER_is_fresh(self, sizeof(*self))'
@@ -100,6 +119,15 @@ CONTRACTS = {
                     '(pieceNo == 0 && GJ_OK(self)) ==> PSQ(self, ghost_j) == spec_sym(TBIndex_symType[sq], PSQ_W(self, %s, ghost_j))' % _OLDIDX,
                     'pieceNo == 0 ==> (TBIndex_kingMapInverse[KIDX_W(self, self->idx)] == spec_sym(TBIndex_symType[sq], sq) && IN_TRIANGLE(spec_sym(TBIndex_symType[sq], sq)))'],
     },
+    'TBIndex_sortPieces': {
+        'requires': _PRE + ['TYPES_SHAPE(self, pieceTypes)', 'types_ok(self, pieceTypes)', 'ghost_cnt0 == spec_count_w(self, self->idx, pieceTypes)'],
+        'assigns': ['self->idx'],
+        'ensures': ['wf_ix(self)', 'KIDX_W(self, self->idx) == KIDX_W(self, %s) && SIDE_W(self, self->idx) == SIDE_W(self, %s)' % (_OLDIDX, _OLDIDX),
+                    # the pieces of every type still stand on the same squares (as a multiset) ...
+                    'spec_count_w(self, self->idx, pieceTypes) == ghost_cnt0',
+                    # ... and neighbouring equal pieces are in ascending square order
+                    '(GJ_OK(self) && ghost_j + 1 < self->p && pieceTypes->data[ghost_j] == pieceTypes->data[ghost_j + 1]) ==> PSQ(self, ghost_j) <= PSQ(self, ghost_j + 1)'],
+    },
     'TBIndex_staticInitialize': {
         'requires': ['1'], 'assigns': ['__CPROVER_object_whole(TBIndex_symType)', '__CPROVER_object_whole(TBIndex_kingMap)', '__CPROVER_object_whole(TBIndex_kingMapInverse)'],
         # for every square: the recorded symmetry maps it into the triangle, and kingMapInverse[kingMap[sq]] is that image
@@ -123,9 +151,23 @@ void h_mirrorY(void) { struct TBIndex* ix; hv(); TBIndex_mirrorY(ix); CANARY_POI
 void h_mirrorD(void) { struct TBIndex* ix; hv(); TBIndex_mirrorD(ix); CANARY_POINT; }
 void h_getSquare(void) { struct TBIndex* ix; int a = nondet_int(); hv(); TBIndex_getSquare(ix, a); CANARY_POINT; }
 void h_setSquare(void) { struct TBIndex* ix; int a = nondet_int(), s = nondet_int(); hv(); TBIndex_setSquare(ix, a, s); CANARY_POINT; }
+void h_sortPieces(void) { struct TBIndex* ix; struct VecInt* t; hv(); ghost_t = nondet_int(); ghost_cnt0 = nondet_int(); TBIndex_sortPieces(ix, t); CANARY_POINT; }
+/* symmetry lemma (real bodies): two indices that are mirror images in the a1-h8 diagonal, white king on that diagonal, get the same canonical index */
+void h_lemma_canon_diag(void) {
+    struct TBIndex a, b; struct VecInt t; int td[5]; _Bool dup = (nondet_int() != 0);
+    hv(); __CPROVER_havoc_object(&a); __CPROVER_havoc_object(td); t.data = td; t.size = a.p;
+    __CPROVER_assume(wf_ix(&a) && types_ok(&a, &t) && tbl_ok_at(ghost_g));
+    int k = KIDX_W(&a, a.idx); __CPROVER_assume(0 <= k && k <= 9 && TBIndex_kingMapInverse[k] == ghost_g && (ghost_g == 0 || ghost_g == 9 || ghost_g == 18 || ghost_g == 27));
+    /* without equal pieces the flag is false; with equal pieces the generator passes true */
+    _Bool has_dup = 0; for (int i = 1; i < 5; i++) for (int j = i + 1; j < 5; j++) if (j < a.p && td[i] == td[j]) has_dup = 1;
+    __CPROVER_assume(dup == has_dup);
+    b = a; TBIndex_mirrorD(&b);
+    TBIndex_canonize(&a, &t, dup); TBIndex_canonize(&b, &t, dup);
+    __CPROVER_assert(a.idx == b.idx, "canonize: diagonal mirror images get the same index");
+    CANARY_POINT; }
 void h_staticInit(void) { hv(); TBIndex_staticInitialize(); CANARY_POINT; }
 '''
-UNWIND = {'wf_ix': 5, 'TBIndex_TBIndex': 5, 'TBIndex_setSquare': 5, 'TBIndex_staticInitialize': 65}
+UNWIND = {'types_ok': 5, 'spec_count_w': 5, 'TBIndex_sortPieces': 5, 'h_lemma_canon_diag': 5, 'wf_ix': 5, 'TBIndex_TBIndex': 5, 'TBIndex_setSquare': 5, 'TBIndex_staticInitialize': 65}
 GROUPS = [
     Group('ctor', 'h_ctor', enforce='TBIndex_TBIndex', min_props=3),
     Group('pieceShift', 'h_pieceShift', enforce='TBIndex_pieceShift', min_props=2),
@@ -136,13 +178,15 @@ GROUPS = [
     Group('mirrorD', 'h_mirrorD', enforce='TBIndex_mirrorD', min_props=2),
     Group('getSquare', 'h_getSquare', enforce='TBIndex_getSquare', replace=('TBIndex_pieceShift',), min_props=3),
     Group('setSquare', 'h_setSquare', enforce='TBIndex_setSquare', replace=('TBIndex_pieceShift', 'TBIndex_getSquare', 'TBIndex_mirrorX', 'TBIndex_mirrorY', 'TBIndex_mirrorD'), min_props=5, timeout=900),
+    Group('sortPieces', 'h_sortPieces', enforce='TBIndex_sortPieces', min_props=5, timeout=1800),
+    Group('lemma_canon_diag', 'h_lemma_canon_diag', min_props=5, timeout=3000, tier='thorough'),   # 13 min
     Group('staticInitialize', 'h_staticInit', enforce='TBIndex_staticInitialize', min_props=5, timeout=1800,
           unwindset={'TBIndex_staticInitialize': [65, 65, 8]}),
 ]
 PROPERTIES = {'C12': [g.name for g in GROUPS]}
 ASSUMPTIONS = {'C12': ['table index of up to 5 men (p <= 5: the shifts of setSquare stay inside 32 bits); the on-demand tables have at most 4',
                        'setSquare/getSquare use the facts about symType/kingMap/kingMapInverse that group staticInitialize proves for every square']}
-NOT_DECIDED = {'C12': ['TBIndex::canonize / sortPieces (std::vector of piece types), TBPosition (move and un-move generation on indices, lambdas), the retrograde generation itself: exactness of the generated distances is NOT decided']}
+NOT_DECIDED = {'C12': ['TBPosition (move and un-move generation on indices, lambdas), the retrograde generation itself: exactness of the generated distances is NOT decided']}
 
 MUTANTS = [
     dict(name='mirrorD_shift', file='lib/texellib/tb/tbgen.hpp', pattern=r'idx = \(\(idx & colBits\) << 3\) \| \(\(idx & rowBits\) >> 3\)', repl='idx = ((idx & colBits) << 3) | ((idx & rowBits) >> 2)', groups=['mirrorD']),
@@ -153,5 +197,7 @@ MUTANTS = [
     dict(name='setSquare_bking_only_itself', file='lib/texellib/tb/tbgen.cpp', pattern=r'for \(int i = 1; i < p; i\+\+\) \{\n            if \(getSquare\(i\) == oldSq\) \{', repl='for (int i = nWhite; i <= nWhite; i++) {\n            if (getSquare(i) == oldSq) {', groups=['setSquare']),
     # (an earlier mutant 'diagonal squares also get the mirror-D bit' survived: it is equivalent - a diagonal square is its own mirror image)
     dict(name='staticInit_row_threshold', file='lib/texellib/tb/tbgen.cpp', pattern=r'        if \(mSq.getY\(\) >= 4\) \{\n            sym \|= 2;', repl='        if (mSq.getY() > 4) {\n            sym |= 2;', groups=['staticInitialize']),
+    dict(name='sortPieces_descending', file='lib/texellib/tb/tbgen.cpp', pattern=r'if \(sqJ.asInt\(\) < sqI.asInt\(\)\) \{', repl='if (sqJ.asInt() > sqI.asInt()) {', groups=['sortPieces']),
+    dict(name='sortPieces_loses_piece', file='lib/texellib/tb/tbgen.cpp', pattern=r'                setSquare\(i, sqJ\);\n                setSquare\(j, sqI\);', repl='                setSquare(i, sqJ);\n                setSquare(j, sqJ);', groups=['sortPieces']),
     dict(name='swapSide_bit', file='lib/texellib/tb/tbgen.hpp', pattern=r'idx \^= 1ULL << \(6\*p-6\);', repl='idx ^= 1ULL << (6*p-5);', groups=['swapSide']),
 ]
